@@ -193,6 +193,17 @@ def rule_eof_before_use(prog, fixture=False):
                             continue
                         if not just and not _consumed_while_flag_set(prog, fn, None, ret, set(vars_)):
                             continue        # no byte has been consumed on any path to this return: a clean end
+                        if not just and _marker_consumed_on_all_paths(fn, ret):
+                            continue        # every path here passed a successful expect_char
+                        if not just:
+                            # `return flag || always_false()`: success exactly when the nothing-consumed flag is set
+                            re_ = strip_all(ret["c"][0])
+                            if re_ is not None and re_.get("k") == "BinaryOperator" and re_.get("op") == "||":
+                                l_, r_ = strip_all(re_["c"][0]), strip_all(re_["c"][1])
+                                if l_ is not None and l_.get("k") == "DeclRefExpr" and _is_nothing_consumed_flag(fn, g, l_) and \
+                                        r_ is not None and r_.get("k") == "CallExpr" and r_.get("fn") in falsefns:
+                                    if not _consumed_while_flag_set(prog, fn, l_["d"], ret, set(vars_)):
+                                        continue
                         if not just:
                             problem = "end of input leads to a success return (%s) without a clean-end justification " \
                                       "(nothing consumed yet / end marker already recognised)" % fn.loc(ret)
@@ -301,6 +312,62 @@ def _consumed_while_flag_set(prog, fn, did, ret, getc_vars):
         if x is not None:
             st = step(st, x)
     return any(e != "C" and e[0] for e in st)
+
+
+def _marker_consumed_on_all_paths(fn, ret):
+    """On every path from the function's entry to `ret` some expect_char call has returned true (the end marker, or
+    part of it, was consumed).  May-analysis of (seen a successful expect_char?, known value of a loop counter): the
+    counter's constant start decides the loop condition of the first pass, so a table-driven
+    `for (i = 0; i < 2; ++i) if (!expect_char(f, marker[i])) return false;` is seen to run at least once."""
+    from .c06 import _ceval, _NoValue
+    cfg = fn.cfg
+    counters = {}
+    for lp in fn.walk():
+        if lp.get("k") == "ForStmt" and "init" in lp.get("parts", {}):
+            for v in walk(lp["c"][lp["parts"]["init"]]):
+                if v.get("k") == "VarDecl" and v.get("c") and folded(v["c"][0]) is not None:
+                    counters[v["d"]] = folded(v["c"][0])
+    if not any(_callee(n) == "expect_char" for n in fn.walk()):
+        return False
+
+    def step(st, x):
+        ok, iv = st
+        if x.get("k") == "DeclStmt":
+            for v in x.get("c", []):
+                if v.get("k") == "VarDecl" and v.get("d") in counters:
+                    iv = (v["d"], counters[v["d"]])
+        if x.get("k") == "UnaryOperator" and x.get("op") in ("++", "--") and iv is not None and \
+                (strip_all(x["c"][0]) or {}).get("d") == iv[0]:
+            nv = iv[1] + (1 if x["op"] == "++" else -1)
+            iv = (iv[0], nv) if abs(nv) < 64 else None
+        elif x.get("k") in ("BinaryOperator", "CompoundAssignOperator") and x.get("op") in flow.ASSIGN_OPS and iv is not None and \
+                (strip_all(x["c"][0]) or {}).get("d") == iv[0]:
+            iv = None
+        return {(ok, iv)}
+
+    def edge(p, s_, st):
+        ok, iv = st
+        b = cfg.blocks[p]
+        if b.get("cond") is None or len(cfg.succ[p]) != 2 or cfg.succ[p][0] == cfg.succ[p][1]:
+            return {st}
+        cond = fn.nodes.get(b["cond"])
+        outcome = cfg.succ[p][0] == s_
+        if iv is not None:
+            try:
+                v = _ceval(fn, cond, lambda e: e.get("k") == "DeclRefExpr" and e.get("d") == iv[0], iv[1])
+                if bool(v) != outcome:
+                    return set()
+            except _NoValue:
+                pass
+        for f in atomise(cond, outcome):
+            if f[0] == "T" and f[2] is True:
+                a = strip_all(f[1])
+                if a is not None and a.get("k") == "CallExpr" and _callee(a) == "expect_char":
+                    ok = True
+        return {(ok, iv)}
+    inn, at = flow.may_states(fn, {(False, None)}, step, edge)
+    sts = at(ret)
+    return bool(sts) and all(ok for ok, _iv in sts)
 
 
 def _clean_end_justified(fn, g, ret):
@@ -998,7 +1065,7 @@ def rule_success_only_at_end(prog, fixture=False):
     r = RuleResult("R-C09-8", "a program reader (a function that reads input and calls the line decoder) returns "
                    "success only where the input has ended (a dominating `== EOF` fact; whether that end is clean is "
                    "R-C09-1's business) or the end-of-program marker was consumed (a successful expect_char): no "
-                   "ordinary line can make the listing stop early with exit status 0", floor=0 if fixture else 4)
+                   "ordinary line can make the listing stop early with exit status 0", floor=0 if fixture else 2)
     falsefns = _always_false_functions(prog)
     for fn in _input_functions(prog):
         if not any(_callee(n) in DECODERS for n in fn.walk()):
@@ -1023,6 +1090,8 @@ def rule_success_only_at_end(prog, fixture=False):
                 ca = strip_all(a)
                 if truth and ca is not None and ca.get("k") == "CallExpr" and _callee(ca) == "expect_char":
                     why = "end marker consumed"
+            if why is None and _marker_consumed_on_all_paths(fn, n):
+                why = "end marker consumed on every path"
             r.add(key, fn.loc(n), why is not None, why or
                   "`%s` reports success although neither the end of the input nor the end-of-program marker has been "
                   "seen on this path: a well-formed program whose bytes happen to satisfy the condition is cut short "
